@@ -29,7 +29,7 @@ ASSUMPTIONS = [
     "cache directories on /dev/shm given as absolute paths (depth 3+) and as paths relative to the working directory (depth 2)",
 ]
 REQUIRED_CATEGORIES = {
-    "quick": ["eviction", "hit", "miss", "enlarge", "missing_uri", "reopen", "lru_pairs_checked", "preempted_schedule"],
+    "quick": ["eviction", "hit", "miss", "enlarge", "missing_uri", "reopen", "lru_pairs_checked", "preempted_schedule", "two_caches_transitions"],
     "thorough": ["eviction", "hit", "miss", "enlarge", "missing_uri", "reopen", "lru_pairs_checked", "preempted_schedule"],
 }
 
@@ -181,6 +181,16 @@ def apply_op(world, tr, op, viol, stats=None, check_model=True):
         m.tick += 1
         m.files[u][1] = m.tick
         obs = ("read",)
+    elif kind == "tie":
+        # u gets exactly the time stamps of the most recently used other file (equal recency: either may be
+        # evicted first, the model puts both in the same last-use class)
+        u = op[1]
+        others = [x for x in m.files if x != u]
+        newest = max(others, key=lambda x: m.files[x][1])
+        st = os.stat(tr.path[newest])
+        lab._real_utime(tr.path[u], (st.st_atime, st.st_mtime))
+        m.files[u][1] = m.files[newest][1]
+        obs = ("tie",)
     elif kind == "age":
         u = op[1]
         oldest = min(v[1] for v in m.files.values()) - 1
@@ -237,6 +247,15 @@ def _reconcile(world, tr, disk, viol, current=frozenset(), stats=None, after_req
     total = sum(disk[n][1] for n in on_disk)
     if after_request and total > m.max_bytes:
         viol("I5 size bound", f"cache files total {total} bytes > limit {m.max_bytes}")
+    # in_cache() must agree with what a request would find
+    try:
+        for u in URIS:
+            ans = world.cache.in_cache(u)
+            if list(ans) != [u in m.files]:
+                viol("I4 in_cache", f"in_cache({u}) = {ans} but the entry is {'cached' if u in m.files else 'not cached'}")
+                break
+    except Exception as exc:  # noqa
+        viol("raises", f"in_cache raised {type(exc).__name__}: {exc}")
     # I4 entries == files
     try:
         n_entries = len(world.cache)
@@ -293,6 +312,8 @@ def enabled_ops(tr, maxlen, depth_here):
         ops.append(("touch", u))
         ops.append(("age", u))
         ops.append(("read", u))
+        if len(cached) >= 2:
+            ops.append(("tie", u))
     # removal of a cached URI spelled with a directive prefix (directives are not part of the key)
     if U["a"] in m.files:
         ops.append(("remove_spelled", "validate=v:" + U["a"], U["a"]))
@@ -371,7 +392,7 @@ def run_bfs(unit):
                 transitions += 1
                 c.evaluations += 1
                 outcomes.add(obs_s)
-                if before != after or op[0] in ("touch", "age", "read", "reopen"):
+                if before != after or op[0] in ("touch", "age", "read", "tie", "reopen"):
                     c.nontriv(n=0)
                     c.cat("nontrivial_transition")
                 for check, what, mode in vlist:
@@ -406,6 +427,71 @@ def run_bfs(unit):
         "frontier_left_unexpanded_at_depth_bound": len(cur),
     }
     c.case({"unit": unit["name"], "states": states, "transitions": transitions})
+    r = c.result()
+    r["distinct_nontrivial"] = states
+    lab.cleanup_scratch()
+    return r
+
+
+# --------------------------------------------------------------------------------------------
+# two named caches side by side (module-level API)
+# --------------------------------------------------------------------------------------------
+def run_two(unit):
+    """BFS over operations on TWO named caches (module-level registry): an operation on one cache must not
+    change the directory, the entry count or the answers of the other."""
+    c = Collector()
+    limit, depth = unit["limit"], unit["depth"]
+    base_ops = [("get", [U["a"]]), ("get", [U["b"]]), ("get", [U["a"], U["c"]]), ("get", [U["ax"], U["b"]]),
+                ("remove", U["a"]), ("purge",), ("reopen", False)]
+    ops = [(i, o) for i in (0, 1) for o in base_ops]
+
+    def build2(hist):
+        ws = [lab.World(size_bytes=limit, parallel=False, api="module", name=f"lab{i}") for i in (0, 1)]
+        trs = [Tracker(w.cache.config.max_size_bytes) for w in ws]
+        for i, o in hist:
+            apply_op(ws[i], trs[i], o, lambda *a: None)
+        return ws, trs
+
+    seen = set()
+    cur = [[]]
+    states = transitions = 0
+    for level in range(depth):
+        nxt = []
+        for hist in cur:
+            for i, o in ops:
+                if o[0] == "remove" and False:
+                    continue
+                ws, trs = build2(hist)
+                j = 1 - i
+                other_before = (canon(ws[j], trs[j]), len(ws[j].cache))
+                vl = []
+                apply_op(ws[i], trs[i], o, lambda chk, what: vl.append((chk, what)), stats=c)
+                other_after = (canon(ws[j], trs[j]), len(ws[j].cache))
+                if other_before != other_after:
+                    vl.append(("I7 other cache changed", f"operation {key_of(o)} on cache {i} changed cache {j}"))
+                # the other cache must still answer from its own directory
+                probe = []
+                apply_op(ws[j], trs[j], ("get", [U["a"]]), lambda chk, what: probe.append((chk, what)))
+                vl += [(chk, "cache %d after an operation on cache %d: %s" % (j, i, what)) for chk, what in probe]
+                transitions += 1
+                c.evaluations += 1
+                key = (canon(ws[0], trs[0]), canon(ws[1], trs[1]))
+                for w in ws:
+                    w.close()
+                for chk, what in vl:
+                    c.violation({"engine": "two-caches", "limit": limit, "history": [[k, key_of(x)] for k, x in hist + [(i, o)]],
+                                 "check": chk}, f"{chk}: {what} after {[(k, key_of(x)) for k, x in hist + [(i, o)]]}")
+                if vl:
+                    continue
+                if key not in seen:
+                    seen.add(key)
+                    states += 1
+                    nxt.append(hist + [(i, o)])
+        cur = nxt
+    c.cat("two_caches_transitions", transitions)
+    c.extra = {"states": states, "transitions": transitions, "traces_validated_against_impl": transitions}
+    c.case({"unit": unit["name"], "states": states})
+    c.sample({"engine": "two-caches", "limit": limit, "example": [[0, ["get", [U["a"]]]], [1, ["purge"]]]})
     r = c.result()
     r["distinct_nontrivial"] = states
     lab.cleanup_scratch()
@@ -555,6 +641,8 @@ def units(tier):
     for limit in (2500, 3500):
         us.append({"name": f"bfs-module-api:limit{limit}", "kind": "bfs", "limit": limit, "depth": 2, "api": "module", "cost": 3})
         us.append({"name": f"bfs-relative-path:limit{limit}", "kind": "bfs", "limit": limit, "depth": 2, "api": "relative", "cost": 3})
+    for limit in (2500,):
+        us.append({"name": f"two-caches:limit{limit}", "kind": "two", "limit": limit, "depth": 3 if tier == "quick" else 4, "cost": 12})
     if tier == "quick":
         reqs = [(6, None, 1), (6, 0, 1), (6, 5, 1), (7, 3, 1)]
     else:
@@ -567,6 +655,8 @@ def units(tier):
 
 
 def run_unit(unit):
+    if unit["kind"] == "two":
+        return run_two(unit)
     return run_bfs(unit) if unit["kind"] == "bfs" else run_sched(unit)
 
 
